@@ -1,6 +1,7 @@
 package main
 
 import (
+	"sort"
 	"fmt"
 	"go/token"
 	"go/types"
@@ -273,6 +274,7 @@ func checkC05(p *Prog, res *Result, tier string) {
 	res.rule("C05-R4", "non-blocking sends on event channels exist only in the hub fan-out", 1)
 	res.rule("C05-R5", "one goroutine each for sequencer and hub; only the sequencer sends on the broadcast channel", 3)
 	res.rule("C05-R6", "the per-watch forwarder closes its output channel on every return", 1)
+	res.rule("C05-R9", "a slice handed over a channel (a broadcast batch, a streamed response) is not written by the sender afterwards: no reuse of a once-allocated buffer, no reset of a field buffer by re-slicing", 2)
 	res.rule("C05-R8", "event batches are shared between subscribers (and with the cache): no function of pkg/backend appends onto a re-slice of, or stores into, an event slice it received as a parameter or from a channel", 3)
 	res.rule("C05-R7", "a write that was applied but reported with unknown outcome is queued for repair (errors.Is test, before commit), otherwise it is readable but never delivered to watchers (C09-R1)", 3)
 	res.Stats["roles"] = map[string]string{"register": funcName(w.register), "remover": funcName(w.remover), "fanout": funcName(w.fanout),
@@ -651,6 +653,9 @@ func checkC05(p *Prog, res *Result, tier string) {
 		res.Stats["event_slice_writes"] = n
 	}
 
+	// ---- R9: hand-off aliasing ----
+	checkHandOffAliasing(p, res, "C05-R9", "pkg/backend", "pkg/backend/scanner")
+
 }
 
 func reachesFunc(p *Prog, from, target *ssa.Function, depth int) bool {
@@ -753,5 +758,148 @@ func checkCacheBeforeBroadcast(p *Prog, r *Roles, w *watchRoles, res *Result) {
 		res.ok("C05-R2", construct, p.pos(batchStore.Pos()), "event construction is dominated by Valid == true")
 	} else {
 		res.bad("C05-R2", construct, p.pos(batchStore.Pos()), "an event is produced for a slot that is not known to be valid: failed writes would be delivered to watchers")
+	}
+}
+
+// checkHandOffAliasing: a slice that has been handed to another goroutine through a channel (directly, or inside a
+// message built for the send) must not be written by the sender afterwards.
+//  (i)  local buffers: after the send, no element store into (a re-slice of) the same backing slice is reachable
+//       without passing the allocation of that slice again (a buffer allocated once outside the loop and sent as
+//       buf[:n] is overwritten by the next iteration);
+//  (ii) buffers kept in a struct field: a field whose value is handed off is never "emptied" by re-slicing
+//       (f = f[:0] keeps the array that the receiver is still reading); it is replaced by a fresh allocation.
+func checkHandOffAliasing(p *Prog, res *Result, rule string, pkgs ...string) {
+	inPkgs := func(f *ssa.Function) bool {
+		for _, rel := range pkgs {
+			if f.Pkg == p.ssaPkg(rel) {
+				return true
+			}
+		}
+		return false
+	}
+	isSlice := func(t types.Type) bool { _, ok := t.Underlying().(*types.Slice); return ok }
+	// the slices a sent value hands over: the value itself, or slice-typed fields of message literals reachable from it
+	var handed func(v ssa.Value, d int, seen map[ssa.Value]bool) []ssa.Value
+	handed = func(v ssa.Value, d int, seen map[ssa.Value]bool) []ssa.Value {
+		v = resolve(v)
+		if v == nil || d > 4 || seen[v] {
+			return nil
+		}
+		seen[v] = true
+		if isSlice(v.Type()) {
+			return []ssa.Value{v}
+		}
+		var out []ssa.Value
+		if al, ok := v.(*ssa.Alloc); ok {
+			for _, ref := range *al.Referrers() {
+				if fa, ok := ref.(*ssa.FieldAddr); ok {
+					for _, r2 := range *fa.Referrers() {
+						if st, ok := r2.(*ssa.Store); ok && st.Addr == ssa.Value(fa) {
+							out = append(out, handed(st.Val, d+1, seen)...)
+						}
+					}
+				}
+			}
+		}
+		return out
+	}
+	baseOf := func(v ssa.Value) ssa.Value {
+		for i := 0; i < 8; i++ {
+			v = resolve(v)
+			s, ok := v.(*ssa.Slice)
+			if !ok {
+				return v
+			}
+			v = s.X
+		}
+		return v
+	}
+	handedFields := map[*types.Var]ssa.Instruction{}
+	nSends := 0
+	for _, f := range p.AllFuncs {
+		if !inPkgs(f) || f.Synthetic != "" {
+			continue
+		}
+		k := 0
+		for _, b := range f.Blocks {
+			for _, ins := range b.Instrs {
+				snd, ok := ins.(*ssa.Send)
+				if !ok {
+					continue
+				}
+				for _, hv := range handed(snd.X, 0, map[ssa.Value]bool{}) {
+					k++
+					nSends++
+					construct := fmt.Sprintf("%s: slice handed over a channel #%d is not written afterwards", funcName(f), k)
+					base := baseOf(hv)
+					// (ii) field-held buffer: remember the field
+					if ld, ok := base.(*ssa.UnOp); ok && ld.Op == token.MUL {
+						if fa, ok := ld.X.(*ssa.FieldAddr); ok {
+							handedFields[fieldOf(fa)] = snd
+						}
+					}
+					// (i) local buffer allocated in this function
+					var mk ssa.Instruction
+					isMake := false
+					switch bx := base.(type) {
+					case *ssa.MakeSlice:
+						mk, isMake = bx, true
+					case *ssa.Alloc:
+						// make([]T, constant) is an array allocation that is sliced
+						if _, isArr := bx.Type().(*types.Pointer).Elem().Underlying().(*types.Array); isArr {
+							mk, isMake = bx, true
+						}
+					}
+					if !isMake {
+						res.ok(rule, construct, p.pos(snd.Pos()), "not a buffer allocated in this function (field buffers are judged by their resets)")
+						continue
+					}
+					sp := posOf(snd)
+					bad, _ := searchFrom(sp.b, sp.i+1, searchOpts{
+						stop: func(i ssa.Instruction) bool { return i == mk },
+						bad: func(i ssa.Instruction) bool {
+							st, ok := i.(*ssa.Store)
+							if !ok {
+								return false
+							}
+							ia, ok := st.Addr.(*ssa.IndexAddr)
+							return ok && baseOf(ia.X) == base
+						},
+					})
+					if bad != nil {
+						res.bad(rule, construct, p.pos(bad.Pos()), "after the send an element of the same backing array is overwritten (the buffer is allocated once and re-sliced for each send): receivers that have not processed the batch yet see later data in place of it")
+					} else {
+						res.ok(rule, construct, p.pos(snd.Pos()), "the sent slice is allocated for this send; no element store into it is reachable afterwards")
+					}
+				}
+			}
+		}
+	}
+	// (ii) resets of handed-off field buffers
+	var flds []*types.Var
+	for fv := range handedFields {
+		flds = append(flds, fv)
+	}
+	sort.Slice(flds, func(i, j int) bool { return flds[i].Name() < flds[j].Name() })
+	for _, fv := range flds {
+		construct := fmt.Sprintf("buffer field %s: replaced, never re-sliced, after it was handed over", fv.Name())
+		bad := ""
+		for _, st := range p.fields().stores[fv] {
+			if sl, ok := resolve(st.Val).(*ssa.Slice); ok {
+				if ld, ok := baseOf(sl).(*ssa.UnOp); ok && ld.Op == token.MUL {
+					if fa, ok := ld.X.(*ssa.FieldAddr); ok && fieldOf(fa) == fv {
+						bad = p.pos(st.Pos())
+					}
+				}
+			}
+		}
+		if bad == "" {
+			res.ok(rule, construct, p.pos(handedFields[fv].Pos()), "every assignment to the field is a fresh slice or an append")
+		} else {
+			res.bad(rule, construct, bad, "the buffer is emptied by re-slicing (f = f[:0]) although its array has been handed to the receiver of the channel: the next appends overwrite data the receiver has not read yet")
+		}
+	}
+	if nSends == 0 {
+		res.und(rule, "slices handed over channels", "-", "no send of a slice found")
 	}
 }
